@@ -205,6 +205,34 @@ func c05Messages(r *rand.Rand, i int) []hostileMsg {
 			p3 = append(p3, 0, 0, 0, 2, 0x40, 0x01, 0, 0, 0, 2, 0x42, 0x01, 0, 0, 0, 2, 0x44, 0x01, 0, 0, 0, 2, 0x26, 0x01)
 			add("hevc-parameter-set-stubs", 9, p3)
 		}
+		// honest lengths, tiny NAL units of every type: RTP aggregation / fragmentation type codes
+		// (H.264 24..29, H.265 48..50) have a structure of their own that the RTP side may look into
+		for _, hdr := range [][]byte{{0x17, 1, 0, 0, 0}, {0x27, 1, 0, 0, 0}} {
+			for t := 0; t < 32; t++ {
+				for n := 1; n <= 5; n++ {
+					for _, fill := range []byte{0x00, 0x01, 0xff} {
+						p := append([]byte(nil), hdr...)
+						p = append(p, 0, 0, 0, byte(n), byte(0x60|t))
+						for q := 1; q < n; q++ {
+							p = append(p, fill)
+						}
+						add("short-nal-every-type/avc", 9, p)
+					}
+				}
+			}
+		}
+		for _, hdr := range [][]byte{{0x1c, 1, 0, 0, 0}, {0x2c, 1, 0, 0, 0}, {0x93, 'h', 'v', 'c', '1'}} {
+			for t := 0; t < 64; t++ {
+				for n := 1; n <= 5; n++ {
+					p := append([]byte(nil), hdr...)
+					p = append(p, 0, 0, 0, byte(n), byte(t<<1))
+					for q := 1; q < n; q++ {
+						p = append(p, []byte{0x01, 0x00, 0xff, 0x01}[q-1])
+					}
+					add("short-nal-every-type/hevc", 9, p)
+				}
+			}
+		}
 	case 4:
 		// unknown codec ids, metadata that is not AMF, big random payloads
 		for id := 0; id < 16; id++ {
@@ -314,7 +342,7 @@ func init() {
 		ID:          "C05",
 		NumCases:    func(tier string, seed int64) int { return c05Sizes(tier) },
 		CaseTimeout: func(string) time.Duration { return 10 * time.Minute },
-		Rule: "one sub-input = one well-framed audio/video/metadata message with a hostile payload sent by an accepted reference publisher to the whole in-process server under one of 8 output configurations (all outputs, gop 0/1/2, dummy audio, single outputs, merge write): all 256 one-byte payloads × audio/video, 2..12-byte payloads over the codec-relevant first bytes × packet types, AVC/HEVC(classic+enhanced)/AAC sequence headers truncated at every offset and with corrupted inner lengths, all 2-byte ASCs, enhanced-RTMP headers with other fourccs, NAL length fields that lie (0, beyond the end, 2^31, 2^32−1), zero-length NALs, unknown codec ids, non-AMF metadata, large random payloads, extreme and backward timestamps, bit-flipped valid frames, codec switches mid-stream. RTMP/FLV/TS joiners attach between messages. " +
+		Rule: "one sub-input = one well-framed audio/video/metadata message with a hostile payload sent by an accepted reference publisher to the whole in-process server under one of 8 output configurations (all outputs, gop 0/1/2, dummy audio, single outputs, merge write): all 256 one-byte payloads × audio/video, 2..12-byte payloads over the codec-relevant first bytes × packet types, AVC/HEVC(classic+enhanced)/AAC sequence headers truncated at every offset and with corrupted inner lengths, all 2-byte ASCs, enhanced-RTMP headers with other fourccs, NAL length fields that lie (0, beyond the end, 2^31, 2^32−1), zero-length NALs, unknown codec ids, non-AMF metadata, large random payloads, extreme and backward timestamps, bit-flipped valid frames, codec switches mid-stream. honest tiny NAL units of every H.264/H.265 type code incl. the RTP aggregation/fragmentation codes; RTMP/FLV/TS joiners attach between messages, RTSP (TCP and UDP) subscribers re-join mid-GOP every 10 messages so that the wait-for-key-frame path inspects the hostile NALs. " +
 			"monitors: process liveness (crash signature = panic text + innermost lal frame; driver resumes after the crashing message), a marker frame after each hostile message must reach a pre-attached FLV witness (else, with the publisher connection still open, the stream is stalled), amplification counter (tags delivered between consecutive markers), canary stream on another name after each case. cell = config cell × input class.",
 		Assumptions: []string{"lal closing the publisher's connection on an uninterpretable payload is allowed (the case reconnects)", "amplification bound: 8 + size/100 deliveries per input message, or 10 000 when dummy audio is on (intended gap filling)"},
 		MinCells: 20,
@@ -419,11 +447,33 @@ func c05Run(c *fw.Ctx, i int) {
 	markerIdx := 1000000 + i*100000
 	lastWitness := 0
 	var joiners []*liveConsumer
+	var rtspJoiners []*ref.RtspClient
+	defer func() {
+		for _, rc := range rtspJoiners {
+			rc.Close()
+		}
+	}()
 	for k, hm := range msgs {
 		if k < c.SubStart {
 			continue
 		}
 		c.Sub(k)
+		if cell.Conf.Rtsp && k%10 == 1 {
+			// an RTSP subscriber that joined mid-GOP (the marker key frame comes every 10th message):
+			// while it waits for a key frame lal inspects every RTP packet made from the publisher's NALs
+			for _, rc := range rtspJoiners {
+				rc.Close()
+			}
+			rtspJoiners = nil
+			for _, udp := range []bool{false, true} {
+				if rc, err := ref.DialRtsp(s.RtspAddr(), 2*time.Second); err == nil {
+					if _, err := rc.Play("rtsp://"+s.RtspAddr()+"/live/"+ss.name, udp, 2*time.Second); err == nil {
+						c.Count("rtsp_joiners_waiting_for_key", 1)
+					}
+					rtspJoiners = append(rtspJoiners, rc)
+				}
+			}
+		}
 		c.Describe("sub=%d cell=%s class=%s type=%d ts=%d len=%d payload=%x", k, cell.Name, hm.Class, hm.Type, hm.Ts, len(hm.Payload), hm.Payload[:min(len(hm.Payload), 64)])
 		if k%25 == 0 {
 			// joiners of each protocol so that fresh-session / wait-for-key paths see the hostile message
